@@ -23,6 +23,7 @@ import Distill.Model.MediaRender
 import Distill.Model.Root
 import Distill.Model.Terms
 import Distill.Model.IEReader
+import Distill.Model.ImageExtract
 namespace Distill.Slices
 open Distill Distill.Proto
 
@@ -535,6 +536,24 @@ def iereaderSlice : P String := do
   let art := match s.article with | some a => artStr a | none => "nil"
   pure s!"{hex s.title} {hex s.publisher} {hex s.copyright} {hex s.author} {bstr s.optOut} {art} {s.images.map imgStr}"
 
+/-- `imageextract tree atoms nTbl (value looksSrc looksSrcset srcValid)*` → what the image extractor
+makes of the element: kind, the image element and the caption, serialised -/
+def imageextractSlice : P String := do
+  let t ← node
+  let A ← atomsP
+  let m ← nat
+  let tbl ← many m (do let v ← str; let a ← bool; let b ← bool; let c ← bool; pure (v, a, b, c))
+  let look := fun (v : String) => tbl.find? (fun e => e.1 == v)
+  let L : Img.LazyAtoms := {
+    looksSrc := fun v => match look v with | some e => e.2.1 | none => false,
+    looksSrcset := fun v => match look v with | some e => e.2.2.1 | none => false,
+    srcValid := fun v => match look v with | some e => e.2.2.2 | none => true }
+  match Img.extract A L t with
+  | .none => pure "none"
+  | .unmodelled => pure "unmodelled"
+  | .image e => pure s!"image {hex (String.ofList (outerHTML e))}"
+  | .figure e c => pure s!"figure {hex (String.ofList (outerHTML e))} {hex (String.ofList (outerHTML c))}"
+
 def outElP : P OutEl := do
   let c ← bool; let h ← str; let t ← str
   pure { content := c, html := h.toList, text := t.toList }
@@ -555,6 +574,7 @@ def dispatch (slice : String) : Option (P String) :=
   | "rootselect" => some rootselectSlice
   | "terms" => some termsSlice
   | "iereader" => some iereaderSlice
+  | "imageextract" => some imageextractSlice
   | "linknum" => some linknumSlice
   | "docfilters" => some docfilters
   | "tableclass" => some tableclass
